@@ -36,9 +36,12 @@ def run(tier, replay=None):
         base = graph_cases(r, tier, 160 if tier == "quick" else 2500, 12 if tier == "quick" else 30, small_exhaustive=3 if tier == "quick" else 4)
     # (1) stand-in scheduler: graph x variant x schedules
     jobs = {}      # id -> (case, kind, args)
+    int_jobs = set()
     for cid, c in base.items():
         if replay:
-            jobs[cid] = (c, rp["kind"], rp["args"]); continue
+            jobs[cid] = (c, rp["kind"], rp["args"])
+            if rp.get("wt") == "i": int_jobs.add(cid)
+            continue
         for v in EXACT:
             for j in range(nsched if not cid.startswith("x") else 2):
                 mode = 0 if j >= 2 or cid.startswith("x") else j + 1      # also the two extreme schedules
@@ -46,7 +49,15 @@ def run(tier, replay=None):
         if not cid.startswith("x") or r.random() < .3:
             for v in EXACT:
                 jobs["%s-a%s" % (cid, v)] = (c, "approx", [v, r.choice([1, 2, 3]), r.getrandbits(40), 0])
-    text = "".join(render_graph(j, k, "d", c[2], a, c[0], c[1]) for j, (c, k, a) in jobs.items())
+    # the same entry points instantiated with an INTEGRAL weight type (graphs whose weights are integers): identities, limits and
+    # "infinity" values of the reductions are type-dependent (numeric_limits<int>::infinity() is 0)
+    if not replay:
+        for cid, c in list(base.items()):
+            if c[2] != 0 or (cid.startswith("x") and r.random() < .8): continue
+            for v in EXACT:
+                j = "%s-%s-int" % (cid, v)
+                jobs[j] = (c, "exact", [v, r.getrandbits(40), r.choice([0, 0, 2])]); int_jobs.add(j)
+    text = "".join(render_graph(j, k, "i" if j in int_jobs else "d", c[2], a, c[0], c[1]) for j, (c, k, a) in jobs.items())
     rc, out, err = run_harness(bshim, text)
     blocks = parse_blocks(out)
     mu_cache, bad = {}, []
@@ -120,12 +131,12 @@ def run(tier, replay=None):
         "exact_tbb_runs_replayed_literally_under_the_logged_schedules_with_equal_cycles": sum(int(w[10]) for w in oks if len(w) > 10 and jobs.get(w[1], (0, "", 0))[1] == "exact"),
         "approx_tbb_runs_whose_exact_phase_was_replayed_literally_under_the_logged_schedules": sum(int(w[9]) for w in oks if len(w) > 9 and jobs.get(w[1], (0, "", 0))[1] == "approx"),
         "schedule_stats": {"runs": len(shim), "parallel_regions": sum(s[0] for s in shim), "leaves": sum(s[1] for s in shim), "forks": sum(s[2] for s in shim), "seqs": sum(s[3] for s in shim)},
-        "real_tbb_runs": len(real_jobs), "many_dropped_edges_family": big, "tsan": tsan_note,
+        "real_tbb_runs": len(real_jobs), "runs_with_an_integral_weight_type": len(int_jobs), "many_dropped_edges_family": big, "tsan": tsan_note,
         "samples": [{"n": c[0], "edges": c[1], "kind": k, "args": a} for (c, k, a) in list(jobs.values())[-2:]], **stats(base)})
     if bad or viols:
         j, why = bad[0] if bad else (viols[0][1], " ".join(viols[0][2:]))
         c, k, a = jobs[j]
-        res.violation("C03 %s %s: %s" % (k, a, why), {"kind": k, "n": c[0], "edges": c[1], "scale": c[2], "args": a, "why": why, "count": len(bad) + len(viols)})
+        res.violation("C03 %s %s: %s" % (k, a, why), {"kind": k, "n": c[0], "edges": c[1], "scale": c[2], "args": a, "wt": "i" if j in int_jobs else "d", "why": why, "count": len(bad) + len(viols)})
     elif diffs or (lean_ok and len(oks) != len(jobs)):
         # focused search: the disagreeing graphs under other labellings / edge orders / weights / schedules
         ids = []
